@@ -116,6 +116,33 @@ def determinism_guard(prop, seed, tier, n=3):
     return True
 
 
+def _finding_worker(path):
+    from . import runner
+
+    case = json.load(open(path))
+    res = runner.run_case(case)
+    sig = tuple(case.get("expect", {}).get("signature", ()))
+    hit = [v for v in res["violations"] if runner.signature(v) == sig]
+    return path, hit[0] if hit else None, res["harness_error"]
+
+
+def regression_replays(prop):
+    """Re-execute the stored replay files of the repaired findings of this property: a
+    `fixed:` entry suppresses nothing, the violation is reported again if it returns."""
+    import concurrent.futures as cf
+    import glob
+    import multiprocessing as mp
+
+    from . import env
+
+    paths = [p for p in sorted(glob.glob(os.path.join(env.VERIF, "findings", "*.json"))) if json.load(open(p)).get("property") == prop]
+    if not paths:
+        return [], 0
+    with cf.ProcessPoolExecutor(max_workers=min(8, len(paths)), mp_context=mp.get_context("fork")) as ex:
+        out = list(ex.map(_finding_worker, paths))
+    return [(p, v) for p, v, _ in out if v is not None], len(paths)
+
+
 def cmd_check(prop, tier):
     from . import batch, env, runner, shrink
 
@@ -133,6 +160,7 @@ def cmd_check(prop, tier):
     else:
         n_runs = None
         budget = float(os.environ.get("VERIF_BUDGET_S", "480"))
+    returned, n_regress = regression_replays(prop)
     agg = batch.run_batch(prop, tier, seed, n_runs, budget, jobs)
     findings = batch.load_findings()
     # group violations by signature, lowest idx first
@@ -155,6 +183,11 @@ def cmd_check(prop, tier):
         k = next(x for x in findings["known"] if x["id"] == kid)
         print(f"KNOWN-FINDING: property={k['property']} {k['description']} (hit {n}x)")
     rc = 0
+    for path, v in returned:
+        if match_known(v, findings) is None:
+            print(f"VIOLATION property={v['property']} replay={path}")
+            print(f"  (a repaired finding has returned) oracle={v['oracle']} op={v['op']} tags={v['tags']}: {v['msg'][:300]}")
+            rc = 1
     rdir = os.environ.get("VERIF_REPLAY_DIR") or os.path.join(env.VERIF, "replays")
     os.makedirs(rdir, exist_ok=True)
     for sig, lst in unlisted[:5]:
@@ -194,11 +227,11 @@ def cmd_check(prop, tier):
     if agg.runs and guard_aborts > 0.2 * agg.runs:
         print(f"COVERAGE-WARNING: {guard_aborts} of {agg.runs} runs were ended early by guards {agg.aborts}: another property is broken on this tree (or the harness is); this check explored little")
     samples = _sample_runs(prop, seed, tier)
-    extra = None
+    extra = {"regression_replays_of_repaired_findings": n_regress, "regression_replays_failing": len(returned)}
     if agg.sys_total:
-        extra = {"systematic_layer": {"words_over_EUR_up_to_length_6": agg.sys_total, "executed_exactly_as_intended": agg.sys_exact,
-                                      "note": "every word is executed once; an E whose candidate edits were all refused shortens the executed word"}}
-    _evidence(prop, tier, seed, agg, len(unlisted), known_hits, samples, extra)
+        extra["systematic_layer"] = {"words_over_EUR_up_to_length_6": agg.sys_total, "executed_exactly_as_intended": agg.sys_exact,
+                                      "note": "every word is executed once; an E whose candidate edits were all refused shortens the executed word"}
+    _evidence(prop, tier, seed, agg, len(unlisted) + len(returned), known_hits, samples, extra)
     ev = agg.stats
     print(f"{prop} {tier}: runs={agg.runs} steps={agg.steps} wall={agg.wall:.1f}s own-evals={sum(v for k, v in ev.items() if k.startswith(prop + '.'))} distinct-cases={len(agg.cases)} aborts={agg.aborts} violations={len(unlisted)} known={sum(known_hits.values())}")
     return rc
